@@ -221,6 +221,13 @@ func (w *world) vrv(v aview) *tmconsensus.VersionedRoundView {
 			hash := w.targetHash(v.H, v.R, t)
 			m[hash] = w.proof(k, v.H, v.R, t, mask)
 			vers[hash] = uint32(bits.OnesCount8(mask))
+			if k != kindPV {
+				// The kernel adds precommits on paths that do not bump the per-block version (commit backfill from a
+				// proposed header's previous-commit proof, replayed headers), and one message may carry several
+				// signatures for one bump: a precommit block version that stays at 1 while signatures grow is a view
+				// the kernel can emit, and the least informative one for a strategy that trusted the versions.
+				vers[hash] = 1
+			}
 			n += bits.OnesCount8(mask)
 		}
 		// Empty maps are nil, as after VersionedRoundView.Clone in gossipViewManager.Output.
